@@ -424,7 +424,7 @@ def thorough_extras(prop, sel, repo, known):
                "C16": [("notes/design-phase-replays.rs", "f3_welcome_for_held_group_id_disturbs_active_group")],
                "C06": [("findings/f10_replay.rs", "verif_replay_f10"), ("findings/f12_replay.rs", "verif_replay_f12")],
                "C08": [("findings/f12_replay.rs", "verif_replay_f12")],
-               "C05": [("notes/design-phase-replays.rs", "f5_admin_add_sweeps_foreign_remove_proposal"), ("findings/f5b_replay.rs", "verif_replay_f5b"), ("findings/f5cd_replay.rs", "verif_replay_f5cd")]}
+               "C05": [("notes/design-phase-replays.rs", "f5_admin_add_sweeps_foreign_remove_proposal"), ("findings/f5b_replay.rs", "verif_replay_f5b"), ("findings/f5cd_replay.rs", "verif_replay_f5cd"), ("findings/f5e_replay.rs", "verif_replay_f5e")]}
     if kf and prop in replays:
         d = scratch_copy(repo, "replay")
         try:
@@ -563,7 +563,7 @@ def main():
             else:
                 unit_sites = {e.get("id") for e in r.get("extracts", [])}
                 for k in kf:
-                    if k["site"] == "*" or k["site"] in unit_sites:
+                    if r["status"] == "ok" and (k["site"] == "*" or k["site"] in unit_sites):
                         known_gone.append(k)
                 if r["status"] == "ok":
                     discharged += 1
